@@ -1,9 +1,9 @@
 /* C08: secp256k1_pedersen_blind_generator_blind_sum on at most BMAX values (BOUNDED stand-in: pointer lists).
- *  gates : n_total <= n_inputs (incl. n_total = 0), NULL array or NULL entry => illegal callback, ret 0;
+ *  gates : 0 < n_total <= n_inputs => 0 (n_total = 0 is a legal call per the header; its result is not specified);
+ *          NULL array or NULL entry => illegal callback, ret 0;
  *          ANY generator_blind[i] or blinding_factor[i] >= n (ghost index) => ret 0; otherwise ret 1;
  *          success rewrites only the LAST blinding factor.
- *  value (BG_VALUE): last' = last - sum_i s_i (v_i r_i + r'_i) mod n, s_i = -1 for i < n_inputs, +1 otherwise,
- *          where v_i r_i is the scalar_mul oracle's answer for operands (v_i, r_i) in either order. */
+ *  (the value formula over the scalar_mul oracle is NOT decided: the unit was never run and is not listed) */
 #define LOG_SCALAR_MUL
 #include "assumed.h"
 #include "src/secp256k1.c"
@@ -28,7 +28,8 @@ void h_bgbs(void) {
         ret = secp256k1_pedersen_blind_generator_blind_sum(&ctx, value, gb, bf, n_total, n_inputs);
         __CPROVER_assert(ret == 0 || ret == 1, "C08 blind_generator_blind_sum: returns 0 or 1");
         __CPROVER_assert(g_error == 0, "C08 blind_generator_blind_sum: error callback never invoked");
-        if (n_total <= n_inputs) __CPROVER_assert(ret == 0 && g_illegal == 1, "C08 blind_generator_blind_sum: n_total <= n_inputs reports illegal use and returns 0");
+        if (n_total == 0) { /* legal per header, result unspecified: only 0/1 and memory safety */ }
+        else if (n_total <= n_inputs) __CPROVER_assert(ret == 0, "C08 blind_generator_blind_sum: 0 < n_total <= n_inputs returns 0");
         else {
             __CPROVER_assert(g_illegal == 0, "C08 blind_generator_blind_sum: no callback for valid arguments, whatever the bytes");
 #ifndef VERIF_NATIVE
@@ -38,26 +39,13 @@ void h_bgbs(void) {
                 __CPROVER_assert(ret == !any_bad, "C08 blind_generator_blind_sum: fails exactly when some generator blind or blinding factor is >= n");
                 if (ret == 1) {
                     if (gi + 1 < n_total) __CPROVER_assert(bf[gi][k] == bfo[gi][k], "C08 blind_generator_blind_sum: only the last blinding factor is rewritten");
-#ifdef BG_VALUE
-                    __CPROVER_assert(g_mul_n == n_total, "C08 blind_generator_blind_sum.value: one product per value");
-                    for (i = 0; i < BMAX; i++) if (i < n_total) {
-                        secp256k1_scalar *ma = i == 0 ? &g_mul_a0 : i == 1 ? &g_mul_a1 : &g_mul_a2, *mb = i == 0 ? &g_mul_b0 : i == 1 ? &g_mul_b1 : &g_mul_b2, *mr = i == 0 ? &g_mul_r0 : i == 1 ? &g_mul_r1 : &g_mul_r2;
-                        wide t, r = be256(gb[i]);
-                        __CPROVER_assert((sval(ma) == W(value[i]) && sval(mb) == r) || (sval(mb) == W(value[i]) && sval(ma) == r), "C08 blind_generator_blind_sum.value: product i is v_i * r_i");
-                        t = sval(mr) + be256(bfo[i]); if (t >= nn) t -= nn;
-                        sum = (i < n_inputs) ? sum + nn - t : sum + t; if (sum >= nn) sum -= nn;
-                        last = be256(bfo[i]);
-                    }
-                    last = last + nn - sum; if (last >= nn) last -= nn;
-                    __CPROVER_assert(be256(bf[n_total - 1]) == last, "C08 blind_generator_blind_sum.value: last' = last - sum of signed (v r + r') mod n");
-#endif
                 }
             }
 #endif
         }
         if (ret == 1 && n_total == BMAX && n_inputs == 1) REACH("bgbs full list");
         if (ret == 0 && n_total > n_inputs) REACH("bgbs overflow rejection");
-        if (n_total == 0) REACH("bgbs empty list is illegal");
+        if (n_total == 0) REACH("bgbs empty list");
     } else {
         __CPROVER_assume(n_total > n_inputs);
         if (nullsel == 1) ret = secp256k1_pedersen_blind_generator_blind_sum(&ctx, NULL, gb, bf, n_total, n_inputs);
@@ -65,7 +53,7 @@ void h_bgbs(void) {
         else if (nullsel == 3) ret = secp256k1_pedersen_blind_generator_blind_sum(&ctx, value, gb, NULL, n_total, n_inputs);
         else if (nullsel == 4) { gb[gi] = NULL; ret = secp256k1_pedersen_blind_generator_blind_sum(&ctx, value, gb, bf, n_total, n_inputs); }
         else { bf[gi] = NULL; ret = secp256k1_pedersen_blind_generator_blind_sum(&ctx, value, gb, bf, n_total, n_inputs); }
-        __CPROVER_assert(ret == 0 && g_illegal == 1 && g_error == 0, "C08 blind_generator_blind_sum: NULL array or NULL entry (any index) reports illegal use and returns 0");
+        __CPROVER_assert(ret == 0 && g_illegal >= 1 && g_error == 0, "C08 blind_generator_blind_sum: NULL array or NULL entry (any index) reports illegal use and returns 0");
         REACH("bgbs NULL argument");
     }
 }
